@@ -90,7 +90,7 @@ def relevant(prop, key):
             return True
     return False
 
-def judge_record(ctx, prop, r):
+def _judge_core(ctx, prop, r):
     out = []
     c = r['case']; res = r.get('result'); m = r.get('meta', {})
     cmd = c.get('cmd', '?')
@@ -125,13 +125,21 @@ def judge_record(ctx, prop, r):
     if res:
         for f in res.get('fails', []):
             out.append((f['key'], f['msg']))
-    # failing-input class: relaxed supernodes larger than the maximum supernode size
+    return out
+
+def judge_record(ctx, prop, r):
+    """violations of one record as (key, message); keys get a failing-input-class suffix where one applies"""
+    out = _judge_core(ctx, prop, r)
+    c = r['case']; m = r.get('meta', {})
     try:
         if 'relax' in c and 'maxsup' in c and int(c['relax']) > int(c['maxsup']):
             out[:] = [(k + '|cfg:relax>maxsuper', msg) for k, msg in out]
         elif c.get('kind') in ('emptycol', 'emptyrow', 'hall', 'hallblock'):
             # elimination reaches a column that has no candidate row at all (known finding)
             out[:] = [(k + '|cfg:no-candidate-row', msg) for k, msg in out]
+        elif m.get('class') == 'workspace':
+            suff = '|ws:sufficient' if float(c.get('lwfrac', 9)) >= 1.25 else '|ws:insufficient'
+            out[:] = [(k + suff, msg) for k, msg in out]
         elif c.get('dyn') and int(c.get('np', 1)) > 1:
             out[:] = [(k + '|cfg:dynamic-snode-store,np>1', msg) for k, msg in out]
         elif c.get('cmd') == 'gssvx' and m.get('prec') in ('c', 'z') and c.get('stype') == 'nr':
@@ -140,10 +148,6 @@ def judge_record(ctx, prop, r):
             out[:] = [((k + '|cfg:complex,row-wise,CONJ') if (k.startswith(('C07|', 'C13|')) and (t2 if '|factored' in k else t1)) else k, msg) for k, msg in out]
     except ValueError:
         pass
-    if False:
-        pass
-        if res.get('nfail', 0) > len(res.get('fails', [])) and not res.get('fails'):
-            out.append(('%s|unlisted-failure' % ctx.pid, 'probe counted failures without listing them'))
     return out
 
 def coverage(ctx, prop, recs):
@@ -822,3 +826,275 @@ PROPS['C15'] = dict(gen=gen_c15, relevant=('C15|',), counters=('xerbla_calls',),
                     rule='table-driven: every single documented-precondition violation and pairs of violations (all pairs thorough, 25 sampled per routine quick) for p?gssv, p?gssvx, ?gstrs, ?gsrfs, ?gscon, ?gsequ, sp_?trsv, sp_?gemv, '
                     '4 precisions, plain and ASan builds; distinct = sha1(case); oracle: info = -(lowest documented position), the error handler is called exactly once with that position, '
                     'FNV checksums over every argument-reachable byte unchanged, live heap bytes unchanged, no thread created')
+
+# ----------------------------------------------------------------------------
+# call histories (C08 C14 C17 C18)
+# ----------------------------------------------------------------------------
+def hist_base(rng, quick, nmax=60):
+    n = rng.choice([3, 5, 8, 12, 20, 30, 44, 60])
+    n = min(n, nmax)
+    c = {'cmd': 'hist', 'seed': rng.randrange(1, 1 << 30), 'n': n, 'vals': 'generic'}
+    c['fam'] = rng.choice(['rand', 'band', 'grid', 'arrow', 'star', 'forest', 'chain'])
+    if c['fam'] == 'rand': c['dens'] = round(min(1.0, rng.choice([2.5, 4, 6]) / n), 4)
+    if c['fam'] in ('star', 'forest'): c['bs'] = rng.choice([2, 3, 5]); c['ncpl'] = rng.choice([1, 2])
+    c['ord'] = rng.choice([0, 1, 2, 3])
+    c['w'] = rng.choice([1, 2, 3, 8]); c['relax'] = rng.choice([1, 2, 4]); c['maxsup'] = max(c['relax'], rng.choice([4, 8, 24]))
+    c['rowblk'] = rng.choice([2, 200]); c['colblk'] = rng.choice([2, 100])
+    return c
+
+def rand_ops(rng, length):
+    ops = ['F']
+    have = True
+    for _ in range(length - 1):
+        if have:
+            o = rng.choice(['R0', 'R1', 'R1', 'S0', 'S1', 'S2', 'D'])
+        else:
+            o = 'F'
+        if o == 'D': have = False
+        if o == 'F': have = True
+        ops.append(o)
+    return ','.join(ops)
+
+def gen_c08(ctx):
+    rng = ctx.rng
+    out = []
+    N = 900 if ctx.quick else 20000
+    for i in range(N):
+        prec = rng.choice(PRECS)
+        c = hist_base(rng, ctx.quick)
+        c['ops'] = rand_ops(rng, rng.choice([2, 3, 4, 4]) if ctx.quick else rng.choice([3, 5, 8, 10]))
+        c['nps'] = ','.join(str(rng.choice([1, 2, 4, 8])) for _ in range(4))
+        c['u'] = rng.choice([1.0, 0.5, 0.1])
+        c['mem'] = rng.choice([0, 0, 1])
+        if c['mem']: c['lwfrac'] = 1.6
+        if rng.random() < 0.5: c['pmode'] = rng.choice([1, 2]); c['pert'] = rng.randrange(1, 1 << 30)
+        out.append(({'variant': 'asan' if i % 3 == 0 else 'plain', 'prec': prec}, c))
+    return out
+
+H_COUNTERS = ('nops', 'nfact', 'nrefact', 'nsolve', 'queries', 'usepr_kept', 'usepr_changed', 'usepr_undec', 'inbuf_checked', 'allocs')
+
+PROPS['C08'] = dict(gen=gen_c08, relevant=('C08|', 'C09|refact', 'C09|first'), counters=H_COUNTERS, batch=15, timeout_case=90.0,
+                    nontrivial=lambda r: (r.get('result') or {}).get('nrefact', 0) + (r.get('result') or {}).get('nsolve', 0) >= 1,
+                    rule='random call sequences (length <=4 quick / <=10 thorough) over {first factor, refactor with/without row-pivot reuse and new values, solve with existing factors (N/T/C, new B), destroy + first factor again} '
+                    'on one pattern, thread count varying between calls, internal and caller-supplied workspace, plain and ASan builds; new values either keep old pivots valid or re-rank column maxima by factors 1/64..128; '
+                    'distinct = sha1(case); non-trivial = at least one refactorization or reuse-solve executed; oracle after every call: reconstruction against the values current at that call, residual bound, structural validator; '
+                    'with pivot reuse an extended-precision replay of the old row order decides whether perm_r must be identical or must change; solves must leave A, L, U and both permutations bit-identical',
+                    floors={'nrefact': 300, 'nsolve': 300, 'usepr_kept': 20, 'usepr_changed': 20})
+
+# ---- C14 ----
+def gen_c14(ctx):
+    rng = ctx.rng
+    out = []
+    # (a)+(b): workspace query and user workspace of every size class, ASan, one case per process
+    NS = 500 if ctx.quick else 8000
+    for i in range(NS):
+        prec = rng.choice(PRECS)
+        c = hist_base(rng, ctx.quick, nmax=30)
+        c['mem'] = 1
+        c['lwfrac'] = rng.choice([0.0, 0.001, 0.01, 0.03, 0.05, 0.08, 0.1, 0.15, 0.2, 0.25, 0.3, 0.35, 0.4, 0.45, 0.5, 0.55, 0.6, 0.7, 0.8, 0.9, 1.0, 1.1, 1.25, 1.5, 2.0])
+        if rng.random() < 0.3: c['lwfrac'] = round(rng.random() * 1.3, 4)
+        c['ops'] = rng.choice(['F,S0', 'F,S0,R1,S1', 'Q,F,S0', 'F,R0,S0,D,F,S2'])
+        c['nps'] = str(rng.choice([1, 2, 3, 4]))
+        out.append(({'variant': 'asan', 'prec': prec, 'per_process': True, 'class': 'workspace'}, c))
+    # results with a sufficient user workspace match the internally allocated run (1 thread: bitwise)
+    NP = 120 if ctx.quick else 2000
+    for i in range(NP):
+        prec = rng.choice(PRECS)
+        c = hist_base(rng, ctx.quick, nmax=44)
+        c['ops'] = 'F,S0'; c['nps'] = '1'
+        a = dict(c); a['mem'] = 0; a['pair'] = i
+        b = dict(c); b['mem'] = 1; b['lwfrac'] = 1.8; b['pair'] = i
+        out.append(({'variant': 'plain', 'prec': prec, 'class': 'pair'}, a))
+        out.append(({'variant': 'plain', 'prec': prec, 'class': 'pair'}, b))
+    # (c) failing allocator behind USER_MALLOC: request k and all later ones fail, k = 1..K
+    configs = []
+    for prec in PRECS:
+        for np_ in ((1, 2, 3, 4) if not ctx.quick else (1, 2, 4)):
+            configs.append((prec, np_))
+    if ctx.quick:
+        rng.shuffle(configs); configs = configs[:6]
+    for ci, (prec, np_) in enumerate(configs):
+        base = {'cmd': 'hist', 'seed': 100 + ci, 'n': 9 if ci % 2 else 12, 'fam': 'grid' if ci % 2 else 'band', 'vals': 'generic', 'ord': 1, 'w': 2, 'relax': 2, 'maxsup': 8,
+                'rowblk': 200, 'colblk': 100, 'ops': 'F,S0' if ci % 3 else 'V', 'nps': str(np_), 'cfg': ci}
+        kmax = 70 + 14 * np_
+        for k in range(0, kmax + 1):
+            c = dict(base); c['failat'] = k
+            out.append(({'variant': 'asan_um', 'prec': prec, 'per_process': True, 'class': 'failalloc', 'dump': False}, c))
+    return out
+
+import re as _re
+re_abort = _re.compile(r'(SUPERLU_MALLOC|[Mm]alloc|alloc).* at line \d+ in file ')
+OOM_MARKS = ('SUPERLU_MALLOC fail', 'Malloc fails', 'malloc fails', 'Memory allocation failed', 'Not enough memory', 'Not enough core', 'fails for', 'Can\'t expand')
+
+def judge_c14(ctx, r, out):
+    m = r['meta']; c = r['case']; res = r.get('result')
+    cls = m.get('class')
+    if cls not in ('workspace', 'failalloc'):
+        return False
+    if r.get('timeout'):
+        return False
+    err = r.get('stderr') or ''
+    san = r.get('san')
+    if san:
+        out.append(('C14|%s|%s:%s|%s' % (cls, san['tool'], san['kind'], san['top']), 'sanitizer report under %s: %s' % (cls, san)))
+        return True
+    if res is None or r.get('rc', 0) != 0:
+        if r.get('signal'):
+            out.append(('C14|%s|signal|%s' % (cls, r['signal']), 'killed by %s; stderr: %s' % (r['signal'], err[-300:])))
+        elif any(mk in err for mk in OOM_MARKS) or re_abort.search(err):
+            r['stopped_with_diagnostic'] = True
+        else:
+            out.append(('C14|%s|exit-without-diagnostic' % cls, 'process ended with rc=%s and no allocation diagnostic; stderr: %s' % (r.get('rc'), err[-300:])))
+        return True
+    # a normal return
+    if cls == 'failalloc' and res.get('alloc_failed', 0) > 0:
+        infos = res.get('infos', '')
+        if any(t in ('F0', 'V0', 'E0') for t in infos.split(',')):
+            out.append(('C14|failalloc|silent-success', '%d allocation requests failed but the call returned as if it had succeeded (%s)' % (res['alloc_failed'], infos)))
+    return False
+
+def cov_c14(ctx, recs):
+    d = collections.Counter(); cfgK = {}; cfgSeen = collections.defaultdict(set)
+    pairs = collections.defaultdict(dict)
+    for r in recs.values():
+        m = r['meta']; c = r['case']; res = r.get('result') or {}
+        cls = m.get('class')
+        if r.get('stopped_with_diagnostic'): d[cls + ':stopped-with-diagnostic'] += 1
+        elif res.get('oom_info'): d[cls + ':returned-info>n'] += 1
+        elif res: d[cls + ':completed'] += 1
+        if cls == 'failalloc':
+            if int(c['failat']) == 0 and res: cfgK[c['cfg']] = res.get('allocs', 0)
+            cfgSeen[c['cfg']].add(int(c['failat']))
+        if cls == 'pair' and res:
+            pairs[(m['prec'], c['pair'])][c['mem']] = res.get('digest')
+    full = sum(1 for k, K in cfgK.items() if all(x in cfgSeen[k] for x in range(1, K + 1)))
+    return {'outcomes': dict(d), 'failalloc_configs': len(cfgK), 'failalloc_configs_with_every_request_failed': full, 'allocation_requests_per_config': cfgK,
+            'workspace_pairs_compared': sum(1 for v in pairs.values() if len(v) == 2)}
+
+def post_c14(ctx, recs, out):
+    pairs = collections.defaultdict(dict)
+    for r in recs.values():
+        if r['meta'].get('class') == 'pair' and r.get('result'):
+            pairs[(r['meta']['prec'], r['case']['pair'])][r['case']['mem']] = r
+    for k, v in pairs.items():
+        if len(v) == 2 and v[0]['result'].get('digest') != v[1]['result'].get('digest') and not v[0]['result'].get('nfail') and not v[1]['result'].get('nfail'):
+            out.append(('C14|user-workspace-result-differs', v[1], 'factors/solution with a sufficient caller workspace differ from the internally allocated run (1 thread): %s vs %s' % (v[1]['result'].get('digest'), v[0]['result'].get('digest'))))
+
+PROPS['C14'] = dict(gen=gen_c14, relevant=('C14|', 'C08|reconstruction', 'C08|residual', 'C08|factors-malformed'), counters=H_COUNTERS, batch=20, judge=judge_c14, coverage_extra=cov_c14, post=post_c14,
+                    timeout_case=20.0, level='fault_enumeration',
+                    nontrivial=lambda r: bool(r.get('result')) or bool(r.get('stopped_with_diagnostic')),
+                    rule='(a) lwork=-1 queries with sentinel-filled L/U; (b) caller workspace = malloc(lwork) (ASan red zones) for size fractions 0..2 of the query estimate, 1..4 threads, with refactorization and reuse; '
+                    '1-thread runs with sufficient workspace compared bitwise with the internally allocated run; (c) failing allocator behind the documented USER_MALLOC hook: for each configuration a counting run '
+                    'measures K requests and request k and all later ones fail for every k=1..K; distinct = sha1(case); non-trivial = a result or a diagnostic stop was observed; '
+                    'allowed outcomes: success (all L/U arrays inside the buffer, oracles pass), info>n, or exit through a library diagnostic; never a sanitizer report, signal, watchdog or silent success',
+                    floors={'failalloc_configs_with_every_request_failed': 3, 'workspace_pairs_compared': 50, 'inbuf_checked': 100})
+
+# ---- C17 ----
+def gen_c17(ctx):
+    rng = ctx.rng
+    out = []
+    N = 260 if ctx.quick else 4000
+    seqs = ['F,S0,D', 'F,R1,S1,R0,S0,D', 'V', 'E', 'V1', 'E1', 'X', 'V,E,V1,E1,X,F,S0,D', 'F,D,F,R0,D', 'E2', 'Q,E2,F,S0,D']
+    for i in range(N):
+        prec = rng.choice(PRECS)
+        c = hist_base(rng, ctx.quick, nmax=30)
+        c['ops'] = rng.choice(seqs)
+        # one thread count per case: the C runtime keeps per-thread structures of finished threads for reuse, so a
+        # repetition that is the first to use more threads than any before it grows the heap once (not a library leak)
+        c['nps'] = str(rng.choice([1, 2, 3, 4]))
+        c['mem'] = rng.choice([0, 0, 1]) if c['ops'][0] == 'F' else 0
+        if c['mem']: c['lwbytes'] = 400000
+        c['reps'] = rng.choice([3, 5, 50]) if rng.random() < 0.1 else rng.choice([3, 5])
+        c['leakcheck'] = 1
+        out.append(({'variant': 'asan', 'prec': prec, 'per_process': True, 'env': {'ASAN_OPTIONS': R_ASAN_LEAK}}, c))
+    # the workspace query is a call class of its own
+    for i in range(12 if ctx.quick else 100):
+        prec = rng.choice(PRECS)
+        c = hist_base(rng, ctx.quick, nmax=20)
+        c['ops'] = 'Q'; c['nps'] = str(rng.choice([1, 2, 4])); c['reps'] = 4; c['leakcheck'] = 1; c['cls'] = 'query'
+        out.append(({'variant': 'asan', 'prec': prec, 'per_process': True, 'env': {'ASAN_OPTIONS': R_ASAN_LEAK}}, c))
+    return out
+
+R_ASAN_LEAK = 'abort_on_error=0:exitcode=97:detect_leaks=1:allocator_may_return_null=1:handle_abort=1'
+
+def judge_c17(ctx, r, out):
+    err = r.get('stderr') or ''
+    if 'LeakSanitizer' in err:
+        import re
+        funcs = []
+        for blk in err.split('\n\n'):
+            if 'leak of' in blk:
+                fr = re.findall(r'#\d+ 0x[0-9a-f]+ in (\S+) /repo/SRC', blk)
+                fr = [re.sub(r'^p([sdcz])g', 'p?g', re.sub(r'^([sdcz])(Preset|Create|user_|gs|pivot)', r'?\2', f)) for f in fr if f not in ('superlu_malloc', 'intMalloc', 'intCalloc')]
+                if fr: funcs.append(fr[0])
+        cls = 'query' if r['case'].get('ops') == 'Q' else ('ops:' + r['case'].get('ops', '?'))
+        for f in sorted(set(funcs)) or ['?']:
+            out.append(('C17|leak|%s|%s' % ('query' if cls == 'query' else 'call', f), 'LeakSanitizer: block allocated in %s still live at exit (%s)' % (f, cls)))
+        r['rc'] = 0 if r.get('result') else r.get('rc')
+        r['san'] = None
+    return False
+
+PROPS['C17'] = dict(gen=gen_c17, relevant=('C17|',), counters=H_COUNTERS + ('heap_growth',), batch=1, judge=judge_c17, timeout_case=120.0,
+                    nontrivial=lambda r: (r.get('result') or {}).get('nops', 0) >= 1,
+                    rule='call sequences by class (factor+solve+destroy, refactor chains, complete simple/expert driver calls, singular calls, workspace queries, user workspace) repeated 3, 5 and 50 times in one process '
+                    'under the ASan build with LeakSanitizer; distinct = sha1(case); non-trivial = at least one call executed; oracle: live heap bytes (sanitizer allocator statistics) after repetition k equal those after repetition 2, '
+                    'LeakSanitizer at exit names any block still allocated with its allocation stack, thread census unchanged',
+                    floors={'nops': 500})
+
+# ---- C18 ----
+def gen_c18(ctx):
+    rng = ctx.rng
+    out = []
+    prefixes = ['', 'fam:band;n:40;ops:F,S0,D;nps:1', 'fam:grid;n:30;ops:F,R1,S1,R0,S2,D;nps:2;u:0.5', 'fam:band;n:24;ops:F,S0;mem:1;lwbytes:300000;nps:1',
+                'fam:band;n:24;ops:F,S0;mem:1;lwbytes:2000;nps:1', 'fam:arrow;n:16;ops:X;nps:2', 'fam:band;n:12;ops:Q;nps:1', 'fam:grid;n:50;ops:V,E;nps:4',
+                'fam:rand;n:60;dens:0.08;ops:F,S1,D;nps:8;w:1;relax:1', 'fam:chain;n:33;ops:V1,E1;nps:3', 'fam:dense;n:9;ops:F,R0,R1,D;nps:2',
+                'fam:forest;n:44;bs:3;ops:F,D,F,S2;nps:4', 'fam:band;n:5;ops:E;nps:1', 'fam:grid;n:64;ops:F,S0,D;nps:1;w:8;relax:4;maxsup:16']
+    NP = 14 if ctx.quick else 60
+    probes = []
+    for i in range(NP):
+        c = hist_base(rng, ctx.quick, nmax=44)
+        c['ops'] = rng.choice(['F,S0', 'F,S1', 'V', 'E'])
+        c['nps'] = '1'
+        probes.append((rng.choice(PRECS), c))
+    k = 0
+    for pi, (prec, pc) in enumerate(probes):
+        for a in range(len(prefixes)):
+            combos = [prefixes[a]] if a else ['']
+            if a and not ctx.quick:
+                combos += [prefixes[a] + '|' + prefixes[b] for b in range(1, len(prefixes)) if (a * 7 + b + pi) % 5 == 0]
+            elif a:
+                b = 1 + (a * 3 + pi) % (len(prefixes) - 1)
+                combos.append(prefixes[a] + '|' + prefixes[b])
+            for pre in combos:
+                c = dict(pc); c['probe'] = pi
+                if pre: c['pre'] = pre
+                k += 1
+                out.append(({'variant': 'asan' if (k % 4 == 0) else 'plain', 'prec': prec, 'per_process': True}, c))
+    return out
+
+def post_c18(ctx, recs, out):
+    base = {}
+    for r in recs.values():
+        if 'pre' not in r['case'] and r.get('result'):
+            base[(r['meta']['prec'], r['case']['probe'])] = r['result'].get('digest')
+    for r in recs.values():
+        if 'pre' in r['case'] and r.get('result'):
+            b = base.get((r['meta']['prec'], r['case']['probe']))
+            if b is not None and r['result'].get('digest') != b:
+                fam = r['case']['pre'].split(';')[0]
+                out.append(('C18|result-depends-on-history', r, 'probe %s after prefix "%s" gave %s, in a fresh process %s' % (r['case']['ops'], r['case']['pre'], r['result'].get('digest'), b)))
+
+def cov_c18(ctx, recs):
+    pre = set(); cmp_ = 0
+    for r in recs.values():
+        if 'pre' in r['case']:
+            pre.add(r['case']['pre']); cmp_ += 1 if r.get('result') else 0
+    return {'distinct_prefix_histories': len(pre), 'probe_runs_compared_with_fresh_process': cmp_}
+
+PROPS['C18'] = dict(gen=gen_c18, relevant=('C18|', 'C08|reconstruction', 'C08|residual'), counters=H_COUNTERS, batch=1, post=post_c18, coverage_extra=cov_c18, timeout_case=60.0,
+                    nontrivial=lambda r: 'pre' in r['case'] and bool(r.get('result')),
+                    rule='probe calls (first factorization + solve, or a complete simple/expert driver call; 1 thread, built-in kernels) run in a fresh process and after prefix histories in the same process drawn from a 13-letter '
+                    'alphabet (other sizes and families, refactorization chains, user workspace sufficient/insufficient, singular calls, workspace query, other tuning parameters, 8-thread runs), singly and in pairs; '
+                    'distinct = sha1(case); non-trivial = a prefixed run that returned; oracle: the digest of every output byte (L/U structure and values, permutations, X, info) equals the fresh-process digest',
+                    floors={'probe_runs_compared_with_fresh_process': 100},
+                    assumptions=['prefix histories in another precision are not exercised: each probe binary links one precision\'s harness (the per-precision static state is disjoint by construction)'])
